@@ -574,6 +574,220 @@ def conc_oracle(plan, results, final, info):
 
 
 # ---------------------------------------------------------------------------
+# client churn: connect / disconnect / reconnect histories, concurrent tagged calls after every step
+# ---------------------------------------------------------------------------
+
+_SLOW = None
+_GATE = [None]          # the gate of the running churn scenario (the slow object lives in this process)
+
+
+def slow_class():
+    """RPC object with a method that stays pending until the scenario opens the gate."""
+    global _SLOW
+    if _SLOW is not None:
+        return _SLOW
+    from qmi.core.rpc import QMI_RpcObject, rpc_method
+
+    class C02Slow(QMI_RpcObject):
+        @rpc_method
+        def hold(self, tag):
+            g = _GATE[0]
+            if g is not None:
+                g.wait(60.0)
+            return ("held", tag)
+
+    _SLOW = C02Slow
+    return _SLOW
+
+
+def gen_churn_plan(rng, qn, seed, thorough=False):
+    n_cli = rng.randint(3, 5)
+    names = [rng.choice(["cli", "cli", "ca", "cb", "cc"]) for _ in range(n_cli)]
+    connected = set()
+    steps = []
+    first = rng.sample(range(n_cli), rng.choice([2, 2, 3]))
+    for k in first:
+        steps.append(["connect", k])
+        connected.add(k)
+    for _ in range(rng.randint(2, 5 if not thorough else 8)):
+        r = rng.random()
+        if connected and (r < 0.5 or len(connected) == n_cli):
+            # leaving in connection order (oldest first) is what makes a later alias computed from the *number* of
+            # connections collide; mix with random leavers
+            k = min(connected) if rng.random() < 0.5 else rng.choice(sorted(connected))
+            steps.append(["disconnect", k])
+            connected.discard(k)
+        else:
+            k = rng.choice([i for i in range(n_cli) if i not in connected])
+            steps.append(["connect", k])
+            connected.add(k)
+    rounds = []
+    for _ in steps:
+        calls = {}
+        for k in range(n_cli):
+            cs = []
+            for _c in range(rng.choice([1, 1, 2])):
+                cs.append([[rng.choice(["hold", "hold", "tag", "nbtag"]), V.gen_value(rng, 1, qmi_names=qn)]
+                           for _o in range(rng.randint(1, 3))])
+            calls[str(k)] = cs
+        rounds.append(calls)
+    pend = rng.random() < 0.3
+    # colliding request ids only with quiescent churn: the per-connection pending table is keyed by request id, so an
+    # error reply on connection loss exists once per *id* (64 random bits in reality; C01 owns that table)
+    return {"seed": seed, "policy": rng.choice(["weighted", "weighted", "pct"]), "names": names, "steps": steps,
+            "rounds": rounds, "equalise": rng.random() < 0.7, "pending_at_disconnect": pend,
+            "rid_bits": 64 if pend else rng.choice([64, 64, 64, 2])}
+
+
+def run_churn(plan, real_tcp=False, want_trace=True):
+    """Returns (records, trace, info); a record = dict(round, client, tag, kind, outcome, may_fail)."""
+    records = []
+    want_trace = want_trace and not plan.get("pending_at_disconnect")      # see the note in correspondence()
+    trace = T.Trace() if want_trace else None
+    binding = plan.get("binding", BINDING)
+    params = plan.get("params", HELPER_PARAMS)
+
+    def body(w):
+        import threading
+        from harness import detsched as D
+        sim = not real_tcp
+
+        def quiesce():
+            if sim:
+                D.TIME_SHIM.sleep(0.01)          # fires only when nothing else can run: everything pending is parked
+            else:
+                import time as _t
+                _t.sleep(0.15)
+        srv = w.context("srv", server=True)
+        srv.make_rpc_object("fast", obj_class())
+        srv.make_rpc_object("slow", slow_class())
+        fnames = method_names()
+        from qmi.core.rpc import make_interface_descriptor
+        snames = [d.name for d in make_interface_descriptor(slow_class()).methods]
+        clients = [None] * len(plan["names"])
+        proxies = [None] * len(plan["names"])
+        connected = set()
+        for si, (action, k) in enumerate(plan["steps"]):
+            pending_before = None
+            if action == "connect":
+                if clients[k] is None:
+                    clients[k] = w.context(plan["names"][k])
+                w.connect(clients[k], srv)
+                connected.add(k)
+                if proxies[k] is None:
+                    pf = clients[k].get_rpc_object_by_name("srv.fast")
+                    ps = clients[k].get_rpc_object_by_name("srv.slow")
+                    pid = ((T.note_proxy(trace, fnames, binding[0], "blk", params[0]),
+                            T.note_proxy(trace, fnames, binding[1], "nb", params[1]),
+                            T.note_proxy(trace, snames, binding[1], "nb", params[1])) if trace else (0, 0, 0))
+                    proxies[k] = (pf, ps, pid)
+            elif not plan.get("pending_at_disconnect"):
+                clients[k].disconnect_from_peer("srv")
+                connected.discard(k)
+                quiesce()                        # the server notices the closed connection
+            else:
+                pending_before = k               # disconnect while this client's calls of the round are pending (below)
+            if plan.get("equalise") and connected:
+                top = max(clients[c]._unique_counters.get("$future_", 0) for c in connected)
+                for c in connected:
+                    while clients[c]._unique_counters.get("$future_", 0) < top:
+                        clients[c].make_unique_address("$future_")
+            # one round of concurrent tagged calls from every connected client
+            gate = D.Event() if sim else threading.Event()
+            _GATE[0] = gate
+            threads = []
+            for c in sorted(connected):
+                pf, ps, pid = proxies[c]
+                for ci, ops in enumerate(plan["rounds"][si].get(str(c), [])):
+                    def caller(c=c, ci=ci, ops=ops, pf=pf, ps=ps, pid=pid):
+                        futs = []
+                        for j, (kind, payload) in enumerate(ops):
+                            tag = f"r{si}.c{c}.{ci}.{j}"
+                            rec = {"round": si, "client": c, "tag": tag, "kind": kind, "payload": payload,
+                                   "outcome": None, "may_fail": pending_before == c}
+                            records.append(rec)
+                            if kind == "hold":
+                                futs.append((rec, _outcome(lambda: T.call_stub(trace, pid[2], ps.rpc_nonblocking, "hold", (tag,), {}))))
+                            elif kind == "nbtag":
+                                futs.append((rec, _outcome(lambda: T.call_stub(trace, pid[1], pf.rpc_nonblocking, "tagged", (tag,),
+                                                                              {"payload": V.build(payload)}))))
+                            else:
+                                rec["outcome"] = _outcome(lambda: T.call_stub(trace, pid[0], pf, "tagged", (tag, V.build(payload)), {}))
+                        for rec, f in reversed(futs):
+                            rec["outcome"] = f if f[0] == "exc" else _outcome(f[1].wait)
+                    threads.append(w.spawn(caller, f"r{si}c{c}_{ci}"))
+            quiesce()                            # every hold() is pending now (gate closed); fast calls are done
+            if pending_before is not None:
+                clients[pending_before].disconnect_from_peer("srv")
+                connected.discard(pending_before)
+                quiesce()
+            gate.set()
+            for t in threads:
+                t.join()
+        _GATE[0] = None
+        if trace:
+            trace.enabled = False
+        return True
+
+    T.TRACE = trace
+    import qmi.core.messaging as M
+    saved_random = M.random
+    if plan.get("rid_bits", 64) < 64:
+        M.random = _LowEntropy(plan["seed"], plan["rid_bits"])
+    try:
+        if real_tcp:
+            info = _run_real(body)
+        else:
+            from harness.simworld import run_scenario
+            out = run_scenario(plan["seed"], body, policy=plan.get("policy", "weighted"),
+                               change_points=plan.get("change_points"))
+            info = {"deadlock": out.deadlock, "budget": out.budget, "error": out.error,
+                    "thread_errors": out.thread_errors, "loop_exceptions": list(out.net.loop_exceptions) if out.net else []}
+    finally:
+        T.TRACE = None
+        M.random = saved_random
+        g = _GATE[0]
+        _GATE[0] = None
+        if g is not None and real_tcp:
+            g.set()
+    return records, trace, info
+
+
+def churn_oracle(plan, records, info):
+    """None or (clause, detail): every caller got the outcome carrying its own tag (or a delivery error when its own
+    connection was the one closed under it), nobody got somebody else's value, no call is left without an outcome."""
+    from qmi.core.exceptions import QMI_MessageDeliveryException
+    foreign = None
+    for r in records:
+        out = r["outcome"]
+        if out is None:
+            continue
+        exp = ("val", ("held", r["tag"])) if r["kind"] == "hold" else ("val", ("tagged", r["tag"], V.build(r["payload"])))
+        if compare(exp, out) is None:
+            continue
+        if r["may_fail"] and out[0] == "exc" and isinstance(out[1], QMI_MessageDeliveryException):
+            continue
+        other = [q["tag"] for q in records if q is not r and q["tag"] in repr(out[1])] if out[0] == "val" else []
+        if other:
+            foreign = ("foreign-outcome", f"caller {r['tag']} ({r['kind']}, client {r['client']}) received {out[1]!r:.200}, "
+                                          f"the outcome of {other[0]}")
+            break
+        if foreign is None:
+            foreign = ("wrong-outcome", f"caller {r['tag']} ({r['kind']}, client {r['client']}, round {r['round']}) got "
+                                        f"{out[0]} {out[1]!r:.200}")
+    if foreign and foreign[0] == "foreign-outcome":
+        return foreign
+    missing = [r["tag"] for r in records if r["outcome"] is None]
+    if info.get("deadlock") or info.get("budget") or missing:
+        return "no-outcome", f"calls without outcome: {missing[:6]}; {str(info.get('deadlock'))[:200]}"
+    if foreign:
+        return foreign
+    if info.get("error") is not None:
+        return "scenario-error", repr(info["error"])[:300]
+    return None
+
+
+# ---------------------------------------------------------------------------
 # translator: how the stubs are bound, and which helper parameters a caller keyword can collide with
 # ---------------------------------------------------------------------------
 
@@ -958,6 +1172,77 @@ class C02(Prop):
             if i < 1 and not real_tcp:
                 res.sample({"concurrent_plan": json.dumps(plan)[:400]})
 
+    def _churn(self, ctx, res, n, seen, lines, outs, spans, real_tcp=False, thorough=False):
+        rng = ctx.rng
+        qn = V.qmi_exception_names()
+        for i in range(n):
+            plan = gen_churn_plan(rng, qn, rng.randrange(1 << 30), thorough)
+            for calls in plan["rounds"]:
+                for cs in calls.values():
+                    for ops in cs:
+                        for op in ops:
+                            if not V.pickle_roundtrips(V.build(op[1])):
+                                res.count("calls_outside_pickle_scope_excluded")
+                                op[1] = ["int", "1"]
+            records, trace, info = run_churn(plan, real_tcp=real_tcp)
+            r = churn_oracle(plan, records, info)
+            res.note_case(("churn", json.dumps(plan, sort_keys=True)))
+            res.count("churn_scenarios" + ("_tcp" if real_tcp else ""))
+            res.count("churn_calls", len(records))
+            res.count("churn_steps_connect", sum(1 for a, _ in plan["steps"] if a == "connect"))
+            res.count("churn_steps_disconnect", sum(1 for a, _ in plan["steps"] if a == "disconnect"))
+            if plan["pending_at_disconnect"]:
+                res.count("churn_scenarios_disconnecting_with_calls_pending")
+            acts = [a for a, _ in plan["steps"]]
+            if any(acts[j] == "disconnect" and "connect" in acts[j + 1:] for j in range(len(acts))):
+                res.count("churn_scenarios_with_connect_after_a_disconnect")
+            if r:
+                sig = f"churn:{r[0]}"
+                if sig not in seen:
+                    seen[sig] = 1
+                    small = self._shrink_churn(plan, r[0], real_tcp)
+                    res.failures.append(Failure(sig, f"client churn {small['steps']} (names {small['names']}, seed {small['seed']}): {r[1][:400]}",
+                                                {"kind": "churn", "plan": small, "real_tcp": real_tcp}))
+                else:
+                    seen[sig] += 1
+            if trace is not None:
+                l, o = trace.lines()
+                spans.append((len(lines), len(l), {"kind": "churn", "plan": plan, "real_tcp": real_tcp}))
+                lines += l
+                outs += o
+                res.traces_validated += 1
+                if len(lines) > 250000:
+                    self._diff(res, lines, outs, spans)
+            if i < 1 and not real_tcp:
+                res.sample({"churn_plan": json.dumps({k: plan[k] for k in ("names", "steps", "equalise", "pending_at_disconnect")})})
+
+    def _shrink_churn(self, plan, clause, real_tcp):
+        def fails(p):
+            try:
+                records, _, info = run_churn(p, real_tcp=real_tcp, want_trace=False)
+                r = churn_oracle(p, records, info)
+                return r is not None and r[0] == clause
+            except Exception:  # noqa
+                return False
+        cur = plan
+        budget = 25
+        while len(cur["steps"]) > 1 and budget > 0:          # drop churn steps from the end
+            cand = dict(cur, steps=cur["steps"][:-1], rounds=cur["rounds"][:-1])
+            budget -= 1
+            if fails(cand):
+                cur = cand
+            else:
+                break
+        for si in range(len(cur["rounds"]) - 1):              # silence the rounds before the last one
+            if budget <= 0:
+                break
+            rounds = [dict(r) for r in cur["rounds"]]
+            rounds[si] = {}
+            budget -= 1
+            if fails(dict(cur, rounds=rounds)):
+                cur = dict(cur, rounds=rounds)
+        return cur
+
     def _shrink_conc(self, plan, clause, real_tcp):
         def fails(p):
             try:
@@ -1023,10 +1308,15 @@ class C02(Prop):
                     self._note_failure(res, seen, plan, f[0], f[1], f[2], f[3])
                 res.count("lean_witness_replays")
                 res.note_case(("witness", nm))
-            self._scripts(ctx, res, ctx.scale(240, 2000), 8, seen, lines, outs, spans)
+            self._scripts(ctx, res, ctx.scale(220, 2000), 8, seen, lines, outs, spans)
             ctx.log(f"scripts done: {res.evaluations} calls compared, {len(res.failures)} failing signatures")
             self._concurrent(ctx, res, ctx.scale(340, 3500), seen, lines, outs, spans, thorough=not ctx.quick)
             ctx.log(f"concurrent scenarios done ({len(lines)} trace lines)")
+            # client churn.  (When a client disconnects with calls pending, the server's worker thread and its socket
+            # thread race on the peer map — `send` may or may not still see the connection — so those scenarios are
+            # judged by the outcome oracle only; the quiescent-churn ones are also replayed on the Lean model.)
+            self._churn(ctx, res, ctx.scale(90, 1200), seen, lines, outs, spans, thorough=not ctx.quick)
+            ctx.log(f"client churn scenarios done ({len(lines)} trace lines)")
             self._diff(res, lines, outs, spans)
             # many futures outstanding at once in one context (address uniqueness far beyond a handful of callers)
             n_out = ctx.scale(150, 1300)
@@ -1040,6 +1330,7 @@ class C02(Prop):
             if not ctx.quick:
                 self._scripts(ctx, res, 250, 8, seen, lines, outs, spans, real_tcp=True, big=True)
                 self._concurrent(ctx, res, 200, seen, lines, outs, spans, real_tcp=True, thorough=True)
+                self._churn(ctx, res, 40, seen, lines, outs, spans, real_tcp=True, thorough=True)
                 ctx.log("real loopback TCP scenarios done")
                 self._diff(res, lines, outs, spans)
         res.extra["occurrences_per_failure_signature"] = dict(seen)
@@ -1063,6 +1354,14 @@ class C02(Prop):
                     for f in eval_script(c["plan"], vs, c.get("real_tcp", False)):
                         self._note_failure(res, seen, c["plan"], f[0], f[1], f[2], f[3], c.get("real_tcp", False))
                     res.note_case(("case", json.dumps(c["plan"], sort_keys=True)))
+                elif c.get("kind") == "churn":
+                    records, _, info = run_churn(c["plan"], real_tcp=c.get("real_tcp", False), want_trace=False)
+                    r = churn_oracle(c["plan"], records, info)
+                    res.note_case(("case", json.dumps(c["plan"], sort_keys=True)))
+                    if r and f"churn:{r[0]}" not in seen:
+                        seen[f"churn:{r[0]}"] = 1
+                        res.failures.append(Failure(f"churn:{r[0]}", r[1][:400], {"kind": "churn", "plan": c["plan"],
+                                                                                   "real_tcp": c.get("real_tcp", False)}))
                 elif c.get("kind") == "conc":
                     results, final, _, info = run_concurrent(c["plan"], real_tcp=c.get("real_tcp", False), want_trace=False)
                     r = conc_oracle(c["plan"], results, final, info)
@@ -1110,6 +1409,19 @@ class C02(Prop):
                 if r and f"concurrent:{r[0]}" not in seen:
                     seen[f"concurrent:{r[0]}"] = 1
                     res.failures.append(Failure(f"concurrent:{r[0]}", f"change point {k}: {r[1][:400]}", {"kind": "conc", "plan": plan, "real_tcp": False}))
+            # systematic sweep 3: the canonical churn history (A, B connect; A leaves; C joins) under many schedules
+            one = [[["hold", ["int", "1"]], ["tag", ["int", "2"]]]]
+            for k in range(ctx.scale(120, 600)):
+                plan = {"seed": k, "policy": "pct" if k % 2 else "weighted", "names": ["ca", "cb", "cc"],
+                        "steps": [["connect", 0], ["connect", 1], ["disconnect", 0], ["connect", 2]],
+                        "rounds": [{}, {}, {}, {"1": one, "2": one}], "equalise": True, "pending_at_disconnect": False,
+                        "change_points": [k, 3 * k + 11]}
+                records, _, info = run_churn(plan, want_trace=False)
+                r = churn_oracle(plan, records, info)
+                res.note_case(("sweep-churn", k))
+                if r and f"churn:{r[0]}" not in seen:
+                    seen[f"churn:{r[0]}"] = 1
+                    res.failures.append(Failure(f"churn:{r[0]}", f"seed {k}: {r[1][:400]}", {"kind": "churn", "plan": plan, "real_tcp": False}))
         return res
 
     # -- replay ---------------------------------------------------------------------------------------------------
@@ -1119,6 +1431,10 @@ class C02(Prop):
         except Exception:  # noqa
             pass
         with T.installed():
+            if rp.get("kind") == "churn":
+                records, _, info = run_churn(rp["plan"], real_tcp=rp.get("real_tcp", False), want_trace=False)
+                r = churn_oracle(rp["plan"], records, info)
+                return Failure(f"churn:{r[0]}", r[1][:600], rp) if r else None
             if rp.get("kind") == "conc":
                 results, final, _, info = run_concurrent(rp["plan"], real_tcp=rp.get("real_tcp", False), want_trace=False)
                 r = conc_oracle(rp["plan"], results, final, info)
